@@ -76,7 +76,7 @@ Proof. reflexivity. Qed.
 
 Lemma transfer_cond_eq : forall w c from v, transfer_cond (mstate_of w c) from v = can_pay w from v.
 Proof.
-  intros. unfold transfer_cond, can_pay, balance_ok. rewrite balance_of_eq, Z.geb_leb. reflexivity.
+  intros. unfold transfer_cond, can_pay, balance_ok. rewrite balance_of_eq. lia.
 Qed.
 Lemma transfer_force_eq : forall w c from to v,
   transfer_force (mstate_of w c) from to v = mstate_of (xfer w from to v) c.
@@ -145,7 +145,7 @@ Proof.
   - change (call_fund (op_of KCallcode) v0) with v0.
     unfold callvalue_checks_balance, callvalue_balance_ok, can_pay. rewrite balance_of_eq, negb_involutive.
     change (Z.eqb (op_of KCallcode) OP_CALLCODE) with true. cbn [andb].
-    destruct (v0 =? 0); cbn [negb orb]; [reflexivity | apply Z.geb_leb].
+    destruct (v0 =? 0); cbn [negb orb]; [reflexivity | lia].
 Qed.
 Lemma send_force_eq : forall kd w ctr a to v0,
   send_force (op_of kd) (mstate_of w ctr) a to (call_fund (op_of kd) v0)
@@ -241,6 +241,24 @@ Lemma sub_ctx_code : forall kd c w to v, c_code (sub_ctx kd c w to v) = get_code
 Proof. destruct kd; reflexivity. Qed.
 Lemma no_account_no_code : forall w a, has_account w a = false -> get_code w a = [].
 Proof. intros w a. unfold has_account, get_code. destruct (alookup a (w_code w)); [discriminate | reflexivity]. Qed.
+
+(* what a frame sees of another account's code *)
+Lemma code_window_length : forall code off, length (code_window code off) = 32%nat.
+Proof. intros. unfold code_window. rewrite firstn_length, app_length, repeat_length. lia. Qed.
+Lemma ext_observation_eq : forall w ctr a off,
+  m_ext_observation (mstate_of w ctr) a off = ext_observation w a off.
+Proof.
+  intros. unfold m_ext_observation, ext_observation.
+  rewrite in_code_eq, code_at_eq.
+  unfold extcodecopy_guard, extcodecopy_use_code, extcodecopy_empty_len.
+  change (negb (32 =? 0)) with true. cbv iota.
+  destruct (has_account w (a mod 2 ^ 160)) eqn:Ha.
+  - f_equal. rewrite firstn_app, code_window_length, Nat.sub_diag, firstn_O, app_nil_r.
+    apply firstn_all2. rewrite code_window_length. lia.
+  - rewrite (no_account_no_code _ _ Ha).
+    replace (Z.to_nat (Z.max 0 (off + 32 - off))) with 32%nat by lia.
+    unfold code_window. rewrite skipn_nil. reflexivity.
+Qed.
 
 Lemma Sim_addlog_nil : forall ms s, Sim ms s -> Sim (map (addlog []) ms) s.
 Proof. intros ms [[r c] lg] H. apply (Sim_addlog [] ms r c lg H). Qed.
@@ -439,6 +457,7 @@ Proof.
         apply IHs; auto.
       * apply IHs; auto.
   - cbn [sexec mexec] in *. destruct (cond =? 0); [apply IHs2 | apply IHs1]; auto.
+  - cbn [sexec mexec] in *. rewrite ext_observation_eq. apply IHs; auto.
   - cbn [mexec]. eapply m_call_sim; eauto.
     + intros c' w' ctr1 r1 ctr2 lg1 H1 H2. apply (IHs1 c' w' ctr1 [] None); auto.
     + intros w' ctr1 ob' l' r1 ctr2 lg1 H1 H2. apply IHs2; auto.
@@ -619,6 +638,7 @@ Proof.
   - eauto.
   - destruct (blen rd <? off + size); [discriminate|]. eauto.
   - destruct (cond =? 0); eauto.
+  - eauto.
   - destruct (is_kcall kd && c_static c && negb _); [discriminate|].
     destruct (MAX_DEPTH <? c_depth c + 1).
     { destruct (sexec s2 c w ctr _ _) as [[r0 c0] l0] eqn:E. inversion Hs; subst. eauto. }
@@ -681,6 +701,7 @@ Proof.
   - eauto.
   - destruct (blen rd <? off + size); [discriminate|]. eauto.
   - destruct (cond =? 0); eauto.
+  - eauto.
   - rewrite andb_true_r in Hs.
     destruct (is_kcall kd && negb _) eqn:Hv; [discriminate|].
     destruct (MAX_DEPTH <? c_depth c + 1).
@@ -736,11 +757,11 @@ Proof.
   cbn [mexec]. unfold m_call. cbv zeta. rewrite static_check_eq. cbn [is_kcall andb].
   unfold send_callvalue, send_cond. rewrite sends_eq. cbn [is_kcall].
   change (call_fund (op_of KCallcode) v) with v.
-  unfold callvalue_checks_balance, callvalue_balance_ok, insufficient.
-  change (Z.eqb (op_of KCallcode) OP_CALLCODE) with true. rewrite Ev. cbn [andb negb].
-  assert (E1 : (balance_of st (c_this c) >=? v) = false) by lia.
-  assert (E2 : (balance_of st (c_this c) <? v) = true) by lia.
-  rewrite E1, E2. destruct (in_code st (to mod 2 ^ 160)); reflexivity.
+  assert (E0 : callvalue_checks_balance (op_of KCallcode) v = true)
+    by (unfold callvalue_checks_balance, op_of, OP_CALLCODE; lia).
+  assert (E1 : callvalue_balance_ok (balance_of st (c_this c)) v = false) by (unfold callvalue_balance_ok; lia).
+  assert (E2 : insufficient (balance_of st (c_this c)) v = true) by (unfold insufficient; lia).
+  rewrite E0, E1, E2, Ev. cbn [andb negb]. destruct (in_code st (to mod 2 ^ 160)); reflexivity.
 Qed.
 
 (* RETURNDATACOPY beyond the return data halts the frame, also when the size is 0 *)
@@ -751,8 +772,10 @@ Theorem retcopy_oob_halts : forall off size rest c w ctr ob l,
 Proof.
   intros off size rest c w ctr ob l Hb. split.
   - cbn [sexec]. assert (E : (blen (returndata l) <? off + size) = true) by lia. rewrite E. reflexivity.
-  - cbn [mexec]. unfold retcopy_guard, retcopy_oob. cbn [andb].
-    assert (E : (off + size >? blen (returndata l)) = true) by lia. rewrite E. reflexivity.
+  - cbn [mexec].
+    assert (E : retcopy_guard size && retcopy_oob off size (blen (returndata l)) = true)
+      by (unfold retcopy_guard, retcopy_oob; lia).
+    rewrite E. reflexivity.
 Qed.
 
 (* a call of an address without account at the depth limit succeeds *)
